@@ -209,7 +209,7 @@ def gen_c18lits():
         "CLIP_DUR": Fraction(0), "ONSET_QUANT": [], "GROUP_EPS": Fraction(0), "DERIV_DX": Fraction(0), "DERIV_WEIGHTS": [],
         "VEL_ENC": Fraction(0), "VEL_DEC": Fraction(0), "VEL_CLIP": [], "PITCH_CLIP": [], "LAST_STEP": Fraction(0),
         "ISCLOSE": [], "MATCH_LABELS": [], "GRACE_LE_ZERO": False, "BASE_PARAMS": [], "DECODE_PARAMS": [], "FIELDS": [],
-        "FEATURES": [], "DEFAULTS": [],
+        "FEATURES": [], "DEFAULTS": [], "STR_IDS": [], "ID_LOOKUPS": [],
     }
 
     def attempt(what, f):
@@ -370,6 +370,30 @@ def gen_c18lits():
             v["MATCH_LABELS"] = out
         attempt("match label", labels)
 
+        def id_forms():
+            # which side each function passes through str(): `str(a["score_id"])` / `str(al["performance_id"])`, and the
+            # dict look-ups `part_by_id[a["score_id"]]`, `ppart_by_id[a["performance_id"]]` of to_matched_score
+            out = []
+            for fname in ("to_matched_score", "get_matched_notes"):
+                fn = _fn(tree, fname)
+                keys = set()
+                for c in _calls(fn, "str"):
+                    if len(c.args) == 1 and isinstance(c.args[0], ast.Subscript) and isinstance(c.args[0].value, ast.Name) \
+                            and isinstance(c.args[0].slice, ast.Constant) and isinstance(c.args[0].slice.value, str):
+                        keys.add(c.args[0].slice.value)
+                out.append((fname, sorted(keys)))
+            v["STR_IDS"] = out
+            look = []
+            fn = _fn(tree, "to_matched_score")
+            for n in ast.walk(fn):
+                if isinstance(n, ast.Subscript) and isinstance(n.value, ast.Name) and n.value.id.endswith("_by_id") \
+                        and isinstance(n.slice, ast.Subscript) and isinstance(n.slice.slice, ast.Constant):
+                    look.append((n.value.id, n.slice.slice.value))
+            v["ID_LOOKUPS"] = sorted(set(look))
+            if not any(k for _, k in out):
+                raise Unexpected("no str(entry[key]) normalisation found in to_matched_score / get_matched_notes")
+        attempt("id normalisation", id_forms)
+
         def grace():
             fn = _fn(tree, "encode_articulation")
             ok = False
@@ -467,6 +491,9 @@ def gen_c18lits():
     w("def C18_ISCLOSE : List Rat := %s" % _llist(_lrat(x) for x in v["ISCLOSE"]))
     w("/-- the label an alignment entry is compared with -/")
     w("def C18_MATCH_LABELS : List (String × String) := %s" % _llist("(%s, %s)" % (_lstr(a), _lstr(b)) for a, b in v["MATCH_LABELS"]))
+    w("/-- the keys each function reads through `str(·)`; the dict look-ups of to_matched_score by id (the key as it is) -/")
+    w("def C18_STR_IDS : List (String × List String) := %s" % _llist("(%s, %s)" % (_lstr(a), _llist(_lstr(x) for x in b)) for a, b in v["STR_IDS"]))
+    w("def C18_ID_LOOKUPS : List (String × String) := %s" % _llist("(%s, %s)" % (_lstr(a), _lstr(b)) for a, b in v["ID_LOOKUPS"]))
     w("/-- `grace_mask = sd <= 0` in encode_articulation -/")
     w("def C18_GRACE_LE_ZERO : Bool := %s" % _lbool(v["GRACE_LE_ZERO"]))
     w("/-- `parameter_names` of encode_tempo; the columns decode_performance hands to decode_time -/")
